@@ -393,6 +393,14 @@ func runC19(r *ev.Run) {
 		if rng.IntN(4) == 0 {
 			wv, wt = 1, 1
 		}
+		switch rng.IntN(10) {
+		case 0: // a weight of exactly 0 switches a modality off; its ids stay in the union (score 0 from that side)
+			wv = 0
+		case 1:
+			wt = 0
+		case 2:
+			wv, wt = 0, 0
+		}
 		K := []float64{1, 60, 0.5 + rng.Float64()*100}[rng.IntN(3)]
 		cfg := &comet.FusionConfig{VectorWeight: wv, TextWeight: wt, K: K}
 		union := map[uint32]bool{}
